@@ -1,13 +1,19 @@
 #!/bin/bash
-# Apply a seeded change to /repo, run the given checks (quick), undo the change straight afterwards.
-# usage: seed_run.sh <patch.diff> <ID> [<ID>...]      prints "<ID> exit=<code> <first VIOLATION/KNOWN line>"
+# Apply a seeded change to /repo, run checks against it, undo the change straight afterwards.
+# usage: seed_run.sh <patch.diff> <own ID> [<other IDs>...]
+#   own ID runs at the full quick budget; the others with VERIF_RUNS=20000 (cross-reference only)
+# Uses a frozen copy of the simulator sources (VERIF_SIM_DIR) if /tmp/mut/simsnap exists, so that editing /verif/sim
+# meanwhile does not disturb a sweep.
 set -u
-P=$1; shift
+P=$1; shift; OWN=$1
 cd /repo || exit 2
 [ -z "$(git status --porcelain)" ] || { echo "/repo not clean"; exit 2; }
 git apply "$P" || { echo "patch does not apply"; exit 2; }
 trap 'git -C /repo checkout -q -- . ' EXIT
+if [ -d /tmp/mut/simsnap ]; then export VERIF_SIM_DIR=/tmp/mut/simsnap VERIF_TARGET_DIR=/tmp/mut/simsnap-target; fi
+export VERIF_NO_EVIDENCE=1
 for id in "$@"; do
-  out=$(cd /verif && VERIF_NO_EVIDENCE=1 ./check $id quick 2>&1); code=$?
-  echo "$id exit=$code $(echo "$out" | grep -E '^(VIOLATION|violation class)' | head -2 | cut -c1-300 | tr '\n' ' ')"
+  if [ "$id" = "$OWN" ]; then out=$(cd /verif && ./check $id quick 2>&1); else out=$(cd /verif && VERIF_RUNS=20000 ./check $id quick 2>&1); fi
+  code=$?
+  echo "$id exit=$code $(echo "$out" | grep -E '^(VIOLATION|violation class)' | head -2 | cut -c1-260 | tr '\n' ' ')"
 done
